@@ -11,7 +11,7 @@ for d in sorted((V / "seeded").iterdir()):
     if m.exists():
         meta = json.loads(m.read_text())
         for pid, r in meta.get("checks", {}).items():
-            if isinstance(r, dict):
+            if isinstance(r, dict) and r["result"] != "quiet":     # round 3 ran every check: list only the catches
                 seeds.setdefault(pid, []).append((d.name, r["result"]))
 print("| id | theorems (all closed) | quick: cases / non-trivial / wall | known findings printed | seeded changes caught by this check |")
 print("|---|---|---|---|---|")
